@@ -35,7 +35,7 @@ RECORD_FIELDS = {
     'AxisR': {'current': 'R', 'homeOffset': 'R', 'offset': 'R', 'absoluteMode': 'B', 'unitMultiplier': 'R'},
 }
 PROJ_NAMES = set(f for fs in RECORD_FIELDS.values() for f in fs)
-COQ_TYPES = {'R': 'R', 'Z': 'Z', 'B': 'bool', 'L': 'list R', 'RR': '(R * R)'}
+COQ_TYPES = {'R': 'R', 'Z': 'Z', 'B': 'bool', 'L': 'list R', 'RR': '(R * R)', 'AxisR': 'AxisR'}
 
 
 class Ctx(object):
@@ -491,6 +491,53 @@ def module_consts(tree):
     return consts
 
 
+class SelfFields(ast.NodeTransformer):
+    """Methods that assign attributes of self (`mutates` in the spec): every `self.<field>` becomes a local variable `self__<field>`,
+    initialised from the record the method is called on; the method's result is the record built from the final values.  A call of another
+    method on self is only accepted while nothing has been assigned yet (it is translated as a call on the ORIGINAL record)."""
+
+    def __init__(self, fields):
+        self.fields = fields
+        self.mutated = False
+
+    def visit_Attribute(self, node):
+        self.generic_visit(node)
+        if isinstance(node.value, ast.Name) and node.value.id == 'self' and node.attr in self.fields:
+            if isinstance(node.ctx, ast.Store):
+                self.mutated = True
+            return ast.copy_location(ast.Name(id='self__' + node.attr, ctx=node.ctx), node)
+        return node
+
+    def visit_Assign(self, node):
+        node.value = self.visit(node.value)             # the right-hand side is evaluated before the attribute is assigned
+        node.targets = [self.visit(t) for t in node.targets]
+        return node
+
+    def visit_AugAssign(self, node):
+        node.value = self.visit(node.value)
+        node.target = self.visit(node.target)
+        return node
+
+    def visit_Call(self, node):
+        f = ast.unparse(node.func)
+        if f.startswith('self.') and self.mutated:
+            raise Unsupported('%s: method of self called after an attribute of self was assigned' % f)
+        if f.startswith('self.'):
+            node.args = [self.visit(a) for a in node.args]          # the callee name itself stays (`self.logicalToNative`)
+            return node
+        self.generic_visit(node)
+        return node
+
+    def visit_Return(self, node):
+        # the value handed back is one of the fields; the translated method yields the whole record instead
+        if node.value is not None:
+            self.visit(node.value)
+        return ast.copy_location(ast.Return(value=self.record()), node)
+
+    def record(self):
+        return ast.Call(func=ast.Name(id='__mkrecord', ctx=ast.Load()), args=[ast.Name(id='self__' + f, ctx=ast.Load()) for f in self.fields], keywords=[])
+
+
 def translate(spec):
     src = open(os.path.join(PKG, spec['file']), 'rb').read().decode('utf-8').replace('\r\n', '\n')
     tree = ast.parse(src)
@@ -506,8 +553,23 @@ def translate(spec):
     for a in pyargs:
         if a not in known and a != 'self':
             raise Unsupported('%s.%s: unexpected parameter %s' % (spec['cls'], spec['func'], a))
+    body, wrap = fn.body, '%s'
+    if spec.get('mutates'):
+        rec = spec['mutates']
+        fields = list(RECORD_FIELDS[rec])
+        sf = SelfFields(fields)
+        body = [sf.visit(st) for st in body]
+        if not (body and isinstance(body[-1], ast.Return)):
+            body = body + [ast.Return(value=sf.record())]
+        ast.fix_missing_locations(ast.Module(body=body, type_ignores=[]))
+        for fld in fields:
+            ctx.env['self__' + fld] = RECORD_FIELDS[rec][fld]
+            ctx.var_types = dict(ctx.var_types, **{'self__' + fld: RECORD_FIELDS[rec][fld]})
+            wrap = wrap % ('(let self__%s := (%s self) in\n  %%s)' % (fld, fld))
+        ctx.methods = dict(ctx.methods, __mkrecord=('Build_' + rec, rec))
     f = Fn(ctx)
-    term, safe = f.block(fn.body, None)
+    term, safe = f.block(body, None)
+    term, safe = wrap % term, wrap % safe
     rt = COQ_TYPES[f.rettype]
     out = 'Definition %s %s : %s :=\n  %s.\n\n' % (spec['name'], ' '.join(params), rt, term)
     out += 'Definition %s_safe %s : Prop :=\n  %s.\n\n' % (spec['name'], ' '.join(params), safe)
@@ -542,6 +604,18 @@ FILES = {
         dict(file='AxisPosition.py', cls='AxisPosition', func='nativeToLogical', name='axis_nativeToLogical',
              params=[('self', 'AxisR')], none=['value', 'absoluteMode'],
              var_types={'value': 'R', 'absoluteMode': 'B'}),
+        # the methods that change an axis: each yields the record after the call
+        dict(file='AxisPosition.py', cls='AxisPosition', func='setLogicalOffsetPosition', name='axis_setLogicalOffsetPosition', mutates='AxisR',
+             params=[('self', 'AxisR'), ('offset', 'R')], methods={'self.logicalToNative': ('axis_logicalToNative self', 'R')}),
+        dict(file='AxisPosition.py', cls='AxisPosition', func='setHomeOffset', name='axis_setHomeOffset', mutates='AxisR',
+             params=[('self', 'AxisR'), ('homeOffset', 'R')]),
+        dict(file='AxisPosition.py', cls='AxisPosition', func='setHome', name='axis_setHome', mutates='AxisR', params=[('self', 'AxisR')]),
+        dict(file='AxisPosition.py', cls='AxisPosition', func='setUnitMultiplier', name='axis_setUnitMultiplier', mutates='AxisR',
+             params=[('self', 'AxisR'), ('unitMultiplier', 'R')]),
+        dict(file='AxisPosition.py', cls='AxisPosition', func='setAbsoluteMode', name='axis_setAbsoluteMode', mutates='AxisR',
+             params=[('self', 'AxisR'), ('absoluteMode', 'B')]),
+        dict(file='AxisPosition.py', cls='AxisPosition', func='setLogicalPosition', name='axis_setLogicalPosition', mutates='AxisR',
+             params=[('self', 'AxisR'), ('position', 'R')], notnone=['position'], methods={'self.logicalToNative': ('axis_logicalToNative self', 'R')}),
     ],
     'GenArc.v': [
         dict(file='GcodeHandlers.py', cls='GcodeHandlers', func='planArc', name='planArc',
